@@ -1,7 +1,8 @@
 _F = "eqsig/fns/time_step.py"
 
-# head of resample_to_approx_dt (unique through the scipy import); none of these patterns contains the line
-# `new_npts = factor * asig.npts`, which the proposed repair (integer sample count) rewrites
+# head of resample_to_approx_dt (unique through the scipy import).  The proposed repair of C14-F1 (integer sample count) only
+# inserts an `else:` branch between `new_npts = 2 * int(new_npts / 2)` and `acc_interp = resample(...)`; no pattern below
+# spans that gap, so every mutant applies to the pinned and to the repaired text alike
 _RS_HEAD = ("    from scipy.signal import resample\n"
             "    factor = asig.dt / target_dt\n"
             "    if factor == 1:\n"
@@ -74,8 +75,8 @@ MUTANTS = [
          new=_RS_HEAD.replace("1 / np.floor(1 / factor)", "1 / np.ceil(1 / factor)"),
          why="decimation factor rounded up in the Fourier variant"),
     dict(id="c14-resample-even-ignored", prop="C14", file=_F,
-         old="    if even:\n        new_npts = 2 * int(new_npts / 2)\n    acc_interp = resample(",
-         new="    if False:\n        new_npts = 2 * int(new_npts / 2)\n    acc_interp = resample(",
+         old="    new_npts = factor * asig.npts\n    if even:\n",
+         new="    new_npts = factor * asig.npts\n    if False:\n",
          why="even flag ignored by the Fourier variant"),
     dict(id="c14-resample-reports-target", prop="C14", file=_F,
          old="    return eqsig.AccSignal(acc_interp, asig.dt / factor)\n",
